@@ -14,6 +14,14 @@
 #define C06_EXT_CALC
 #define C06_CALC_STUBS
 #endif
+#ifdef H_aggr_verify
+#define C06_AGGR_VERIFY
+#define C06_VH_CB ((c06_calc_fn)KSI_AggregationPdu_calculateHmac)
+#endif
+#ifdef H_ext_verify
+#define C06_EXT_VERIFY
+#define C06_VH_CB ((c06_calc_fn)KSI_ExtendPdu_calculateHmac)
+#endif
 #include "env/c06_pdu.h"
 #include "types_base.c"
 #ifdef H_verifyHmac
@@ -79,16 +87,23 @@ static KSI_Config s_conf;
 static KSI_RequestAck s_ack;
 #endif
 void harness(void) {
+#if defined(H_aggr_calc_v2) || defined(H_ext_calc_v2)
+	KSI_CTX *ctx = &s_ctx;            /* (absent PDU / absent context: covered by the v1 jobs) */
+	PDU_T *pdu = &s_pdu;
+#else
 	KSI_CTX *ctx = nondet_bool() ? &s_ctx : NULL;
 	PDU_T *pdu = nondet_bool() ? &s_pdu : NULL;
+#endif
 	KSI_DataHash *out = nondet_ptr(), *out0 = out;
 	const char *key = nondet_ptr();
 	KSI_HashAlgorithm alg = (KSI_HashAlgorithm)nondet_int();
 	int res;
-	size_t ver = nondet_size();
+	/* v2 jobs: version 2 exactly (keeps the memcpy-heavy v1 path out of the formula);
+	 * v1 jobs: every other value of the option, i.e. version 1 and all invalid versions */
 #if defined(H_aggr_calc_v2) || defined(H_ext_calc_v2)
-	if (ver == KSI_PDU_VERSION_1) ver = KSI_PDU_VERSION_2;
+	size_t ver = KSI_PDU_VERSION_2;
 #else
+	size_t ver = nondet_size();
 	if (ver == KSI_PDU_VERSION_2) ver = KSI_PDU_VERSION_1;
 #endif
 	s_ctx.options[VER_OPT] = ver;
@@ -121,10 +136,45 @@ void harness(void) {
 	g_mac_wit = nondet_size();
 	res = CALC(pdu, alg, key, nondet_bool() ? &out : NULL);
 	if (res == KSI_OK) REACH("MAC computed");
+#if defined(H_aggr_calc_v2) || defined(H_ext_calc_v2)
 	if (res == KSI_OK && pdu->raw != NULL) REACH("MAC over the received bytes");
 	if (res == KSI_OK && pdu->raw == NULL && pdu->response != NULL) REACH("MAC over a serialized response PDU");
 	if (res == KSI_OK && pdu->raw == NULL && pdu->confRequest != NULL) REACH("MAC over a serialized configuration request PDU");
+#endif
 	if (res != KSI_OK && g_ser_calls > 0) REACH("error after serialization");
+#if defined(H_aggr_calc_v1) || defined(H_ext_calc_v1)
+	if (res == KSI_INVALID_FORMAT && ctx != NULL && pdu != NULL) REACH("invalid PDU version refused");
+	if (res == KSI_OK && g_ser_calls == 2 && g_mac_wit < g_mac_len) REACH("v1 MAC over two serialized elements, witness inside");
+	if (res == KSI_OK && g_ser_calls == 0 && g_mac_wit >= s_hdr.raw->data_len && g_mac_wit < g_mac_len) REACH("v1 MAC over raw elements, witness in the payload");
+#endif
 	if (res == KSI_OK) free(out);          /* the caller owns the result (for --memory-leak-check) */
+}
+#endif
+
+#if defined(H_aggr_verify) || defined(H_ext_verify)
+#ifdef H_aggr_verify
+#define PDU_T KSI_AggregationPdu
+#define VERIFY KSI_AggregationPdu_verify
+#else
+#define PDU_T KSI_ExtendPdu
+#define VERIFY KSI_ExtendPdu_verify
+#endif
+static KSI_CTX s_ctx; static PDU_T s_pdu; static KSI_Header s_hdr; static KSI_DataHash s_mac;
+void harness(void) {
+	PDU_T *pdu = nondet_bool() ? &s_pdu : NULL;
+	const char *pass = nondet_ptr();
+	int res;
+	s_ctx.options[KSI_OPT_AGGR_HMAC_ALGORITHM] = nondet_size();
+	s_ctx.options[KSI_OPT_EXT_HMAC_ALGORITHM] = nondet_size();
+	s_pdu.ctx = &s_ctx;                /* a PDU object always carries the context it was created with */
+	s_pdu.header = nondet_bool() ? &s_hdr : NULL;
+	s_pdu.hmac = nondet_bool() ? &s_mac : NULL;
+	s_mac.imprint[0] = nondet_uchar();
+	res = VERIFY(pdu, pass);
+	if (res == KSI_OK) REACH("PDU accepted");
+	if (res == KSI_OK && (KSI_HashAlgorithm)s_ctx.options[KSI_OPT_AGGR_HMAC_ALGORITHM] != KSI_HASHALG_INVALID_VALUE
+			&& (KSI_HashAlgorithm)s_ctx.options[KSI_OPT_EXT_HMAC_ALGORITHM] != KSI_HASHALG_INVALID_VALUE) REACH("PDU accepted with pinned algorithm");
+	if (res == KSI_INVALID_FORMAT) REACH("header or MAC missing");
+	if (res == KSI_HMAC_MISMATCH) REACH("MAC mismatch");
 }
 #endif
